@@ -217,6 +217,30 @@ def check(ctx, p, T, m, S, stype, wit, workload, al=()):
     exp = chains.ref_unfold(T, m, set(S))
     if contracts._norm_chain(got) != contracts._norm_chain(exp):
         ctx.violate("chain:direct:not-the-unfolding", f"chain of {m} with S={sorted(S)}: {str(got)[:700]} expected {str(exp)[:700]}", w)
+    elif ctx.rng.random() < 0.08:
+        # the same question abandoned at a random line of the library's code, or a question the library refuses, and then the question again
+        from .. import trace  # noqa: PLC0415
+
+        fp = trace.Failpoint.get()
+        call = (lambda: p.build_decay_chains(m, stable_particles=sarg)) if (S or stype != "list") else (lambda: p.build_decay_chains(m))
+        if ctx.rng.random() < 0.6:
+            _, n = fp.count(call)
+            status, where = fp.inject(ctx.rng.randint(1, max(1, n)), call)
+            how = "abandoned-at-" + str(where)
+            ctx.hit("asked-again-after:an-abandoned-call:" + status)
+        else:
+            try:
+                p.build_decay_chains("NoSuchParticle", stable_particles=sarg)
+            except Exception:  # noqa: BLE001, S110
+                pass
+            how = "refused-question"
+            ctx.hit("asked-again-after:a-refused-question")
+        contracts.drain()
+        w3 = {**w, "asked_again_after": how}
+        ok, got3 = ctx.guard("chain", w3, call)
+        contracts.drain()
+        if ok and contracts._norm_chain(got3) != contracts._norm_chain(exp):
+            ctx.violate("chain:second-answer-differs:after-" + how.split("-at-")[0], f"chain of {m} asked again ({how}): {str(got3)[:500]} expected {str(exp)[:500]}", w3)
     elif ctx.rng.random() < 0.2:
         # the same question once more, after the caller edited the first answer (or had the modes expanded in between): the same unfolding again
         how = "answer-edited" if (ctx.rng.random() < 0.6 or workload == "corpus") else "modes-expanded"
